@@ -98,6 +98,12 @@ def TUPLE(*items):
     return Ty("tuple", None, tuple(items))
 
 
+def UNION(a, b):
+    """`a | b` of two different concrete kinds (int | list[int], int | tuple[int, int]): the value is
+    (is_first, value as a, value as b); isinstance() narrows it"""
+    return Ty("union", None, (a, b))
+
+
 class Val:
     """A symbolic value: static kind + z3 term(s)."""
 
@@ -386,6 +392,7 @@ class Heap:
 def forall(vs, body, patterns=None):
     """z3.ForAll that drops user patterns z3 rejects (patterns may not contain ite or
     boolean structure) instead of failing."""
+    _check_no_capture(vs, body)
     if patterns and not any(_has_ite(p) for p in patterns):
         try:
             return z3.ForAll(vs, body, patterns=patterns)
@@ -408,3 +415,28 @@ def _has_ite(t):
                 return True
             todo.extend(u.children())
     return False
+
+
+class BoundVariableCapture(Exception):
+    pass
+
+
+def _check_no_capture(vs, body):
+    """Spec quantifiers bind deterministic names (`?q`).  A quantifier over `?q` whose body contains
+    another quantifier over `?q` almost certainly captured occurrences meant for the outer one (the
+    inner ForAll abstracts every `?q` below it): refuse to build such a formula."""
+    names = {str(v) for v in vs}
+    todo, seen = [body], set()
+    while todo:
+        t = todo.pop()
+        k = t.get_id()
+        if k in seen:
+            continue
+        seen.add(k)
+        if z3.is_quantifier(t):
+            inner = {t.var_name(i) for i in range(t.num_vars())}
+            if inner & names:
+                raise BoundVariableCapture(f"nested quantifiers bind the same name {sorted(inner & names)}")
+            todo.append(t.body())
+        elif z3.is_app(t):
+            todo.extend(t.children())
